@@ -106,8 +106,14 @@ pub fn draw_config(profile: &str, seed: u64, tier_thorough: bool) -> (RunConfig,
         // natural difficulties only vary through retargets; use overrides on all networks
     }
     match profile {
-        "C01" | "C02" | "C04" | "C05" => {
+        "C01" | "C04" | "C05" => {
             sw.weights = [30, 45, 30, 0, 3, 3, 2];
+        }
+        "C02" => {
+            // fee percentiles must refer to the same tip as the other endpoints
+            sw.weights = [30, 45, 30, 6, 3, 3, 2];
+            sw.client_mix = [0, 0, 0, 10, 0, 0, 0];
+            sw.tx_density = sw.tx_density.max(2);
         }
         "C06" => {
             sw.weights = [25, 40, 28, 30, 2, 3, 2];
@@ -182,6 +188,22 @@ pub fn draw_config(profile: &str, seed: u64, tier_thorough: bool) -> (RunConfig,
             ..Default::default()
         });
     }
+    if profile == "C20" && rng.chance(1, if tier_thorough { 10 } else { 30 }) {
+        // a long fork discarded at once: mass clean-up of cached outputs, deltas and bodies
+        sw.long_chain = true;
+        sw.max_events = 4000;
+        sw.tx_density = 0;
+        sw.upgrades = false;
+        sw.fault_cfg = false;
+        network = "regtest".to_string();
+        threshold = *rng.pick(&[60u32, 100, 144]);
+        sw.script = Some(LongScript {
+            race_until: *rng.pick(&[120u32, 250, 400]),
+            max_lead_in_race: *rng.pick(&[20u32, 50]),
+            pull_ahead_to: 200,
+            ..Default::default()
+        });
+    }
     if profile == "C11" && rng.chance(1, if tier_thorough { 4 } else { 10 }) {
         // long header-rule chain crossing one or two retargets
         sw.long_chain = true;
@@ -214,7 +236,7 @@ pub fn draw_config(profile: &str, seed: u64, tier_thorough: bool) -> (RunConfig,
         network,
         threshold,
         wallet_seed: rng.next_u64(),
-        wallet_size: rng.range(11, 16) as usize,
+        wallet_size: rng.range(14, 19) as usize,
         page_limit,
         bucket_pages: *rng.pick(&[1u16, 4, 16]),
         lazy_fees,
